@@ -129,6 +129,23 @@ Proof.
   intros [_ _ _ _ _ _ Htot _ _]. vm_compute in Htot. discriminate.
 Qed.
 
+(* WriteTo goes by the chunk sizes alone: two indexes with the same parameters, ids and sizes -- whatever
+   their Start fields say (a concatenation of chunk lists, a sub-range, hand-built chunks with Start 0) --
+   are written to the same bytes; and row k of the written table ends at the (64-bit) sum of the sizes
+   of rows 0..k. *)
+Theorem C04_encode_index_ignores_start : forall i j : index,
+  ix_flags i = ix_flags j -> ix_min i = ix_min j -> ix_avg i = ix_avg j -> ix_max i = ix_max j ->
+  map (fun c => (c_id c, c_size c)) (ix_chunks i) = map (fun c => (c_id c, c_size c)) (ix_chunks j) ->
+  encode_index i = encode_index j.
+Proof. exact encode_index_ignores_start. Qed.
+Print Assumptions C04_encode_index_ignores_start.
+
+Theorem C04_table_offsets_are_running_sums : forall (cs : list chunk) (off : N) (k : nat),
+  (k < length cs)%nat ->
+  fst (nth k (table_items off cs) (0, [])) = fold_left (fun a c => add64 a (c_size c)) (firstn (S k) cs) off.
+Proof. exact table_items_offsets. Qed.
+Print Assumptions C04_table_offsets_are_running_sums.
+
 (* Store histories (LocalIndexStore: os.Create truncates, WriteTo writes from offset 0): whatever was
    stored under the name before -- nothing, a shorter, a longer index -- the file after StoreIndex i is
    exactly Index.WriteTo's bytes of i, and reading the name back after two stores gives the second. *)
